@@ -253,15 +253,7 @@ def run(prog: Program, rep: Report, tier: str) -> None:
     rep.sample({"paths": n_paths, "instances": counts})
 
 
-def restrict(v: Any, pcs: List[T.Term]) -> Any:
-    if isinstance(v, tuple):
-        if len(v) == 4 and v[0] == "ite":
-            if v[1] in pcs:
-                return restrict(v[2], pcs)
-            if neg(v[1]) in pcs:
-                return restrict(v[3], pcs)
-        return tuple(restrict(x, pcs) for x in v)
-    return v
+from ..frames import restrict  # noqa: E402  (shared: resolves ite/alt/lookup by the path's guards)
 
 
 def strip_alt(v: Any) -> Any:
